@@ -165,6 +165,12 @@ def run_lines(binary, lines, args=(), jobs=None, timeout=7200):
                 p.kill()
                 so, se = p.communicate()
             ol = [l for l in so.split("\n") if l.strip()]
+            if ol and ol[-1].strip() == '{"restart":true}':
+                # the process asked for a fresh one after a call that did not return; nothing crashed
+                ol = ol[:-1]
+                results.extend(ol[:len(rest)])
+                rest = rest[len(ol):]
+                continue
             results.extend(ol[:len(rest)])
             if len(ol) >= len(rest):
                 break
@@ -303,6 +309,7 @@ def main():
     if a.pid == "setup":
         props.setup()
         return
+    os.environ["ACVH_TIER"] = a.tier   # the harness scales its per-call deadlines with the tier
     ctx = Ctx(a.pid, a.tier, seed)
     fn = getattr(props, "check_" + a.pid, None)
     if fn is None:
